@@ -240,12 +240,14 @@ func runFilterCase(c vt.Case, d delays) vt.Event {
 	}
 	sort.Ints(gotIDs)
 	return vt.Event{"kind": "filter", "blocks": blocks, "got": gotIDs, "ignoreSec": d.ign, "deleteSec": d.del, "syncSec": d.sync,
-		"modelIgnore": ignoreTicks, "modelDelete": deleteTicks, "included": false, "ageH": 0, "origin": ""}
+		"modelIgnore": ignoreTicks, "modelDelete": deleteTicks, "included": false, "ageH": 0, "origin": "",
+		"deleted": []int{}, "after": []int{}, "views": []any{}, "err": "", "filterSec": 0, "cleanerSec": 0, "storeSec": 0}
 }
 
 func flagsEvent(d delays, from string) vt.Event {
 	return vt.Event{"kind": "flags", "blocks": []any{}, "got": []int{}, "ignoreSec": d.ign, "deleteSec": d.del, "syncSec": d.sync,
-		"modelIgnore": 2, "modelDelete": 4, "included": false, "ageH": 0, "origin": from}
+		"modelIgnore": 2, "modelDelete": 4, "included": false, "ageH": 0, "origin": from,
+		"deleted": []int{}, "after": []int{}, "views": []any{}, "err": "", "filterSec": 0, "cleanerSec": 0, "storeSec": 0}
 }
 
 // probe: one-shot `thanos compact` over a filesystem bucket holding the aligned5 layout with the second block
@@ -317,8 +319,10 @@ func TestC34(t *testing.T) {
 		fromBin = flagsFromBinary(t, bin)
 	}
 	rnd := vt.Rand()
+	wir := wiringFromSource(t, src)
 	gen := func(yield func(vt.Case)) {
 		yield(vt.Case{"kind": "flags", "origin": "source"})
+		wiringCases(rnd, src, wir, vt.Pick(60, 600), yield)
 		if bin != "" {
 			yield(vt.Case{"kind": "flags", "origin": "binary"})
 			yield(vt.Case{"kind": "probe", "ageH": 20})
@@ -373,6 +377,8 @@ func TestC34(t *testing.T) {
 				return nil
 			}
 			return ev
+		case "wiring":
+			return runWiringCase(c, src, wir)
 		default:
 			return runFilterCase(c, src)
 		}
